@@ -152,7 +152,9 @@ class Association:
     def raw(self, data: bytes, source_addr):
         try:
             self.protocol.datagram_received(data, source_addr)
-        except Exception as e:   # asyncio would log and carry on
+        except (KeyboardInterrupt, SystemExit):
+            raise
+        except BaseException as e:   # asyncio would log and carry on (CancelledError is not an Exception)
             return e
         return None
 
